@@ -11,9 +11,9 @@ import (
 
 func vN7() int {
 	if vThorough() {
-		return 40
+		return 32
 	}
-	return 24
+	return 18
 }
 
 var vDispatched chan orderedRequest
@@ -91,6 +91,12 @@ func vh_C07_server_loop() {
 	}
 	vConsumed(len(data))
 	svr := vNewServer(false, "")
+	if vNondetBool() {
+		// allocator on: frames are received into recycled, dirty 256 KiB pages
+		alloc := newAllocator()
+		alloc.available = append(alloc.available, vHavocBytes(maxMsgLength))
+		svr.pktMgr.alloc, svr.serverConn.conn.alloc = alloc, alloc
+	}
 	svr.serverConn.conn.Reader = &vReader{data: data}
 	f := &vMFile{name: "/o"}
 	svr.openFiles["1"] = f
@@ -111,6 +117,11 @@ func vh_C07_reqserver_loop() {
 	want, _ := vWellFormedPrefix(data)
 	vConsumed(len(data))
 	rs := vNewRequestServer(Handlers{vH{}, vH{}, vH{}, vH{}}, "/")
+	if vNondetBool() {
+		alloc := newAllocator()
+		alloc.available = append(alloc.available, vHavocBytes(maxMsgLength))
+		rs.pktMgr.alloc, rs.serverConn.conn.alloc = alloc, alloc
+	}
 	rs.serverConn.conn.Reader = &vReader{data: data}
 	ch := make(chan orderedRequest, 16)
 	err := rs.serveLoop(ch)
@@ -123,4 +134,93 @@ func vh_C07_reqserver_loop() {
 	vAssert(got <= want, "RequestServer: a malformed frame (or anything after it) is never dispatched")
 	vAssert(got == want, "RequestServer: every well-formed request before it is dispatched")
 	vEmit("want", want)
+}
+
+// ---- structured mutations of valid frames: one length field replaced by an
+// arbitrary 32-bit value, the stream optionally cut short; allocator on/off ----
+
+func vMutatedStream() []byte {
+	id := vNondetU32()
+	var m interface{ MarshalBinary() ([]byte, error) }
+	var fields []int // offsets of the 32-bit length fields in the frame
+	switch vChoice(4) {
+	case 0:
+		m = &sshFxpWritePacket{ID: id, Handle: "1", Offset: 0, Length: 2, Data: []byte{7, 8}}
+		fields = []int{0, 9, 22}
+	case 1:
+		m = &sshFxpOpenPacket{ID: id, Path: "p", Pflags: 1, Flags: 0}
+		fields = []int{0, 9}
+	case 2:
+		m = &sshFxpRenamePacket{ID: id, Oldpath: "a", Newpath: "b"}
+		fields = []int{0, 9, 14}
+	case 3:
+		m = &sshFxpSetstatPacket{ID: id, Path: "p", Flags: 0}
+		fields = []int{0, 9}
+	}
+	b, err := m.MarshalBinary()
+	vAssert(err == nil, "marshals")
+	n := len(b) - 4
+	b[0], b[1], b[2], b[3] = byte(n>>24), byte(n>>16), byte(n>>8), byte(n)
+	pos := fields[vChoice(len(fields))]
+	v := vNondetU32()
+	b[pos], b[pos+1], b[pos+2], b[pos+3] = byte(v>>24), byte(v>>16), byte(v>>8), byte(v)
+	switch vChoice(3) {
+	case 1:
+		b = b[:len(b)-1]
+	case 2:
+		b = b[:len(b)-5]
+	}
+	return b
+}
+
+//verif:redirect (*github.com/pkg/sftp.packetManager).workerChan vStubWorkerChan
+func vh_C07_server_mutated() {
+	data := vMutatedStream()
+	want, _ := vWellFormedPrefix(data)
+	if !vSymbolic() {
+		vNativeServe(data, want, "Server")
+		return
+	}
+	vConsumed(len(data))
+	svr := vNewServer(false, "")
+	if vNondetBool() {
+		alloc := newAllocator()
+		alloc.available = append(alloc.available, vHavocBytes(maxMsgLength))
+		svr.pktMgr.alloc, svr.serverConn.conn.alloc = alloc, alloc
+	}
+	svr.serverConn.conn.Reader = &vReader{data: data}
+	svr.Serve()
+	got := len(vDispatched)
+	vAssert(got <= want, "Server: a malformed frame (or anything after it) is never dispatched")
+	vAssert(got == want, "Server: every well-formed request before it is dispatched")
+	for i := 0; i < got; i++ {
+		p := <-vDispatched
+		if w, ok := p.requestPacket.(*sshFxpWritePacket); ok {
+			vAssert(int(w.Length) == len(w.Data) && len(w.Data) <= 2 && vBytesEq(w.Data, []byte{7, 8}[:vMin(len(w.Data), 2)]), "a dispatched WRITE carries only bytes that were received")
+		}
+	}
+}
+
+func vh_C07_reqserver_mutated() {
+	data := vMutatedStream()
+	want, _ := vWellFormedPrefix(data)
+	vConsumed(len(data))
+	rs := vNewRequestServer(Handlers{vH{}, vH{}, vH{}, vH{}}, "/")
+	if vNondetBool() {
+		alloc := newAllocator()
+		alloc.available = append(alloc.available, vHavocBytes(maxMsgLength))
+		rs.pktMgr.alloc, rs.serverConn.conn.alloc = alloc, alloc
+	}
+	rs.serverConn.conn.Reader = &vReader{data: data}
+	ch := make(chan orderedRequest, 16)
+	rs.serveLoop(ch)
+	got := 0
+	for p := range ch {
+		if w, ok := p.requestPacket.(*sshFxpWritePacket); ok {
+			vAssert(int(w.Length) == len(w.Data) && len(w.Data) <= 2 && vBytesEq(w.Data, []byte{7, 8}[:vMin(len(w.Data), 2)]), "a dispatched WRITE carries only bytes that were received")
+		}
+		got++
+	}
+	vAssert(got <= want, "RequestServer: a malformed frame (or anything after it) is never dispatched")
+	vAssert(got == want, "RequestServer: every well-formed request before it is dispatched")
 }
